@@ -9,5 +9,5 @@ git -C /repo worktree add -q --detach $WT HEAD || exit 2
 trap 'git -C /repo worktree remove --force $WT >/dev/null 2>&1' EXIT
 git -C $WT apply "$P" || { echo "patch does not apply"; exit 2; }
 for prop in "$@"; do
-  (cd /verif && VERIF_REPO=$WT timeout 1200 bin/check $prop --tier quick 2>&1 | grep -E "^(VIOLATION|KNOWN|  sig|$prop tier|driver)" | head -12)
+  (cd "$(dirname "$(readlink -f "$0")")/.." && VERIF_REPO=$WT timeout 1200 bin/check $prop --tier quick 2>&1 | grep -E "^(VIOLATION|KNOWN|  sig|$prop tier|driver)" | head -12)
 done
